@@ -477,10 +477,10 @@ impl Response {
     pub open spec fn msgs(self) -> Seq<SubMsg> { self.messages@ }
     #[verifier::external_body]
     pub fn new() -> (r: Response)
-        ensures r.msgs() == Seq::<SubMsg>::empty()
+        ensures r.msgs() == Seq::empty()
     { unimplemented!() }
     #[verifier::external_body]
-    pub fn add_attribute(self, k: impl IntoStr, v: impl IntoStr) -> (r: Response)
+    pub fn add_attribute(self, key: impl IntoStr, value: impl IntoStr) -> (r: Response)
         ensures r.msgs() == self.msgs()
     { unimplemented!() }
     #[verifier::external_body]
@@ -488,16 +488,16 @@ impl Response {
         ensures r.msgs() == self.msgs()
     { unimplemented!() }
     #[verifier::external_body]
-    pub fn add_message<M: IntoCosmos>(self, m: M) -> (r: Response)
-        ensures r.msgs() == self.msgs().push(plain_sub(m.cm()))
+    pub fn add_message<M: IntoCosmos>(self, msg: M) -> (r: Response)
+        ensures r.msgs() == self.msgs().push(plain_sub(msg.cm()))
     { unimplemented!() }
     #[verifier::external_body]
     pub fn add_messages(self, ms: Vec<CosmosMsg>) -> (r: Response)
         ensures r.msgs() == self.msgs() + ms@.map_values(|m: CosmosMsg| plain_sub(m))
     { unimplemented!() }
     #[verifier::external_body]
-    pub fn add_submessage(self, m: SubMsg) -> (r: Response)
-        ensures r.msgs() == self.msgs().push(m)
+    pub fn add_submessage(self, msg: SubMsg) -> (r: Response)
+        ensures r.msgs() == self.msgs().push(msg)
     { unimplemented!() }
 }
 
